@@ -42,7 +42,7 @@ Record variant := {
   v_shs_while : bool;  (* SharedMutex::lock_shared             shared_mutex.cpp:33           if -> while *)
   v_st_while : bool;   (* SharedTimedMutex::TimedWaitHelper    shared_timed_mutex.hpp:39     if -> while (r && ..) *)
   v_st_helper : bool;  (* SharedTimedMutex::TimedWaitHelper    shared_timed_mutex.hpp:48     LockHelper() when exclusive *)
-  v_sl_guard : bool    (* Scheduler::SleepPreemptive           scheduler.cpp:164-168         test it != end() before it->second *)
+  v_sl_guard : bool    (* Scheduler::SleepPreemptive           scheduler.cpp:162-166         it != end() && before it->second *)
 }.
 
 Definition v_pinned : variant :=
@@ -89,14 +89,18 @@ Definition sm_unlink (m : smap) (l : list fid) : smap :=
 Definition sm_wake (m : smap) (T : nat) : smap :=
   {| keys := filter (fun k => Nat.ltb T k) (keys m);
      sleepers := filter (fun p => Nat.ltb T (fst p)) (sleepers m); ub := ub m |}.
-(* SleepPreemptive after Sleep(ns) returned (scheduler.cpp:162-169):
-     if (_time <= ns) { it = find(ns); [guard: it != end() &&] if (it->second.Empty()) erase(ns); } *)
+(* SleepPreemptive after Sleep(ns) returned (scheduler.cpp:159-167).
+     guarded (the tree since the sleep-map fix):
+       if (auto it = find(ns); it != end() && it->second.Empty()) erase(it);
+     unguarded (the text before it):
+       if (_time <= ns) { it = find(ns); YACLIB_DEBUG(it == end(), ..); if (it->second.Empty()) erase(ns); } *)
 Definition sm_after (guard : bool) (m : smap) (ns now : nat) : smap :=
-  if Nat.leb now ns then
-    if mem ns (keys m) then
-      if existsb (fun p => Nat.eqb (fst p) ns) (sleepers m) then m
-      else {| keys := rem ns (keys m); sleepers := sleepers m; ub := ub m |}
-    else if guard then m else {| keys := keys m; sleepers := sleepers m; ub := true |}
+  let erase_if_empty :=
+    if existsb (fun p => Nat.eqb (fst p) ns) (sleepers m) then m
+    else {| keys := rem ns (keys m); sleepers := sleepers m; ub := ub m |} in
+  if guard then (if mem ns (keys m) then erase_if_empty else m)
+  else if Nat.leb now ns then
+    (if mem ns (keys m) then erase_if_empty else {| keys := keys m; sleepers := sleepers m; ub := true |})
   else m.
 
 (* the two Wait(timeout) overloads: a duration is added to SystemClock::now() (queue.hpp:22-25) *)
